@@ -264,4 +264,113 @@ def obligations(ctx):
         if r3.status == "violated" and r3.witness:
             d = [v for k, v in r3.witness["model"].items() if k.startswith("disc(cap:cmd")]
             r3.witness["what"] += f" (command discriminant {d[0] if d else '?'}: the variant the match does not cover)"
+    out += precedence(ctx)
+    return out
+
+
+GRAMMARS = [
+    # (label, module needle prefix, top rule, OR rule, AND rule, unary rule)
+    ("QUERY / FIND / REMEMBER where-clause (query.rs)", "parser-commands-query-sneldb_query-__parse_", "expr", "or_expr", "and_expr", "factor"),
+    ("PLOT filter (plotql.rs)", "parser-commands-plotql-plotql_parser-__parse_", "expression", "or_expr", "and_expr", "factor"),
+]
+
+
+def precedence(ctx):
+    """NOT binds tighter than AND, AND tighter than OR, parentheses override: the expression rules
+    form strata, and a rule re-enters a looser stratum only between a matched "(" and ")" """
+    from .flushspec import Builder
+    out = []
+    r = Result("B-5", "boolean expressions: the OR rule takes AND-level operands on the left and recurses on the right, the AND rule "
+                      "takes NOT/primary-level operands on the left and recurses into itself on the right (never into the OR level), "
+                      "NOT applies to a NOT/primary-level operand, and the whole-expression rule is re-entered only after a matched "
+                      "\"(\" - so NOT binds tighter than AND, AND tighter than OR, and only parentheses override")
+    r.functions = []
+    r.bounds = "call structure and operand data flow of the generated rule functions; every path of each rule body (no loops)"
+    out.append(r)
+    q = ctx.q
+    r.nontrivial = True
+    for label, prefix, top, orr, andr, unary in GRAMMARS:
+        rules = {}
+        for name in (top, orr, andr, unary):
+            b = Builder(ctx, prefix + name + ".", f"{label}: rule {name}", {})
+            if b.E is None:
+                r.status = "inconclusive"
+                r.notes.append(b.err)
+                return out
+            rules[name] = b.E
+            r.functions.append(f"{label}: rule {name}")
+        level = {top: 0, orr: 0, andr: 1, unary: 2}
+
+        def expr_calls(E):
+            res = []
+            for e in E.events:
+                m = re.search(r"__parse_(\w+)$", e.func)
+                if m and m.group(1) in level:
+                    res.append((m.group(1), e))
+            return res
+
+        def bad(what, ev=None):
+            r.status = "violated"
+            r.witness = {"what": f"{label}: {what}", "span": f"{ev.span[0]}:{ev.span[1]}" if ev is not None and ev.span else None,
+                         "call": ev.func[:100] if ev is not None else "", "path": [], "model": {}}
+            if "query.rs" in label:
+                # the structural finding is confirmed on the real parser with unparenthesised samples
+                binary = native_binary(ctx.log)
+                if binary is not None:
+                    rc, line = run_native(binary, ["precedence"])
+                    r.witness["native"] = line
+                    if rc != 3:
+                        r.status = "inconclusive"
+                        r.notes.append("the rule structure differs from the expected strata but the sample expressions still parse "
+                                       "to the expected trees: " + line)
+            return out
+        # top rule: just the OR level
+        if [n for n, _ in expr_calls(rules[top])] != [orr]:
+            return bad(f"the rule `{top}` is not a plain alias of `{orr}`")
+        # OR rule: left operand from AND level at the start position, right operand from OR level
+        for rule, left, right, kw in ((orr, andr, orr, "OR"), (andr, unary, andr, "AND")):
+            calls = expr_calls(rules[rule])
+            names = [n for n, _ in calls]
+            if names != [left, right]:
+                ev = next((e for n, e in calls if n not in (left, right)), calls[-1][1] if calls else None)
+                return bad(f"the rule `{rule}` takes its operands from {names} instead of [`{left}` on the left, `{right}` after {kw}]: "
+                           f"{kw} does not bind the way the statement says (e.g. `a AND b OR c`)", ev)
+            l_ev, r_ev = calls[0][1], calls[1][1]
+            if sym.describe(l_ev.args[3]) != "arg:__pos":
+                return bad(f"the left operand of `{rule}` is not parsed at the rule's start position", l_ev)
+            kws = [e for e in rules[rule].events if re.search(r"__parse_ci$", e.func) and len(e.args) > 4]
+            if not kws or not all(kw in sym.describe(e.args[4]) for e in kws):
+                return bad(f"the rule `{rule}` does not match the keyword {kw} between its operands", r_ev)
+            # the right operand is parsed only after the keyword matched
+            kd = z3.BitVec(f"disc({kws[0].site})", 64)
+            res, _ = q.check(r_ev.reach, kd != 0, domain=rules[rule].domain)
+            r.queries += 1
+            if res != z3.unsat:
+                return bad(f"the right operand of `{rule}` can be parsed without a matched {kw}", r_ev)
+        # unary / primary rule: NOT recurses into itself; the top rule only between "(" and ")"
+        E = rules[unary]
+        calls = expr_calls(E)
+        lits = [e for e in E.events if re.search(r"parse_string_literal$", e.func) and len(e.args) > 2]
+        opens = [e for e in lits if '"("' in sym.describe(e.args[2])]
+        closes = [e for e in lits if '")"' in sym.describe(e.args[2])]
+        nots = [e for e in E.events if re.search(r"__parse_ci$", e.func) and len(e.args) > 4 and "NOT" in sym.describe(e.args[4])]
+        for n, e in calls:
+            if n == unary:
+                if not nots:
+                    return bad(f"`{unary}` recurses without matching NOT", e)
+                res, _ = q.check(e.reach, z3.BitVec(f"disc({nots[0].site})", 64) != 0, domain=E.domain)
+                r.queries += 1
+                if res != z3.unsat:
+                    return bad(f"`{unary}` recurses into itself without a matched NOT", e)
+            elif n == top:
+                if not opens or not closes:
+                    return bad(f"`{unary}` re-enters `{top}` without parentheses", e)
+                res, _ = q.check(e.reach, z3.BitVec(f"disc({opens[0].site})", 64) != 0, domain=E.domain)
+                r.queries += 1
+                if res != z3.unsat:
+                    return bad(f"`{unary}` re-enters `{top}` without a matched \"(\"", e)
+            else:
+                return bad(f"`{unary}` (NOT / primary level) calls the looser rule `{n}` directly: NOT would not bind tighter than AND / OR", e)
+        if not any(n == unary for n, _ in calls) or not any(n == top for n, _ in calls):
+            return bad(f"`{unary}` has no NOT recursion or no parenthesised alternative")
     return out
